@@ -12,6 +12,11 @@ func init() {
 	Registry["C10"] = Spec{
 		Pkgs: map[string][]string{"v2": {"resolve", "astnorm", "plan"}},
 		Run:  runC10,
+		Thorough: func(r *fw.Run) {
+			workspaceWhoMayCall(r, []wsCallRule{
+				{Rule: "C10-T1", What: "the lifecycle methods of a DeferResponseWriter (Flush / Complete) are called only from package resolve", Callees: []string{"resolve:DeferResponseWriter.Flush", "resolve:DeferResponseWriter.Complete"}, Allowed: []string{"resolve:"}, Why: "the defer stream is flushed or completed from outside the section the frame discipline covers (C10-R1/R4): frames interleave, or the stream is completed before the initial frame", Expected: 4},
+			})
+		},
 		Explanation: "Decides the structural half of 'the @defer stream is well-formed and terminates': in resolveDeferSingle every use of the shared writer, of the shared Resolvable and of the DataBuffer contents happens with DataBuffer.mu held (frames cannot interleave, the outstanding counter is race-free, Flush is inside the section); " +
 			"the outstanding counter is written only by ResolveDeferBatch/ResolveDeferError; on every path through those two functions there is exactly one counter update, one completed entry and one hasNext whose argument is the comparison of the counter with zero taken after the update; " +
 			"announced ids and scheduled groups derive from the same liveChildDescriptors result (initial frame, nested frames, sequence arm); the stream's Complete() is called only from a defer registered after the first successful Flush; defer groups use a plain errgroup that is joined; " +
